@@ -23,6 +23,7 @@ import Proofs.C02_SubstLocal
 import Proofs.C02_ConvertNames
 import Proofs.C02_DocSubstVisit
 import Proofs.C08_DefaultMap
+import Proofs.Pins
 namespace Mammoth
 
 /-! ## 1. escaping -/
@@ -746,5 +747,13 @@ example : (convertDoc { idPrefix := S!"p" } (c02_cexAnchorDoc S!"a")).map (fun r
     = .ok S!"<p><a href=\"#pa\">12</a></p>" := by rfl
 example : (convertDoc { idPrefix := S!"p" } (c02_cexAnchorDoc S!"b")).map (fun r => render r.nodes)
     = .ok S!"<p><a href=\"#pa\">1</a><a href=\"#pb\">2</a></p>" := by rfl
+
+/-- The tables of the library that this property's theorems consume (regenerated from /repo's source on this run) still have the
+    content the model was validated against: the behaviour of the HTML escape on the characters it replaces; the void tag names.  An edit of one of them in the library changes model and code
+    alike; it is this theorem that then no longer checks (`Proofs/Pins.lean`). -/
+theorem C02_tables_as_validated :
+    (Generated.escapeTable = pin_escapeTable) ∧
+    (Generated.voidTagNames = pin_voidTagNames) :=
+  ⟨pins_escapeTable, pins_voidTagNames⟩
 
 end Mammoth
